@@ -33,5 +33,18 @@ let do_path f =
   String.concat "" [ "D "; hex_of_bytes d; " "; pth_state dst; "|U "; hex_of_bytes u; " "; pth_state ust;
                      "|V "; string_of_int (int_of_n vfl); "|N "; hex_of_bytes nrm;
                      "|P "; hex_of_bytes p; " "; pth_state pst; " "; hex_of_bytes (dot_normalize p) ]
+(* the same three functions computed from the declarative specification (Spec/SPath.v) *)
+let do_paths f =
+  if List.length f < 6 || String.length (List.nth f 1) <> 9 then "?args" else
+  let h = List.nth f 2 in
+  if not (List.mem (int_of_string h) [int_of_z c_HTP_URL_DECODE_PRESERVE_PERCENT; int_of_z c_HTP_URL_DECODE_REMOVE_PERCENT;
+                                       int_of_z c_HTP_URL_DECODE_PROCESS_INVALID]) then "?cfg" else
+  let c = pth_cfg_of (List.nth f 1) h (List.nth f 3) (List.nth f 4) in
+  let s = bytes_of_hex (List.nth f 5) in
+  let (u, ufl) = utf8_spec_decode c s in
+  String.concat "" [ "D "; hex_of_bytes (pth_decode_spec c s); " "; string_of_int (int_of_n (pth_decoder_flags_spec c s));
+                     "|U "; hex_of_bytes u; " "; string_of_int (int_of_n ufl);
+                     "|V "; string_of_int (int_of_n (utf8_spec_validate s)) ]
+let () = register "paths" do_paths
 let () = register "path" do_path
 let () = register "pathn" do_pathn
